@@ -21,7 +21,7 @@ Strings travel as arrays of Unicode code points, integers as decimal strings.
   {"op":"linestrs","lines":[[..]..]}           -> {"lits":[[..]..]|null}       (all string literals of the lines; null if one does not lex)
   {"op":"bank","pre":[..],"suf":[..],"bank":[..]} -> {"line":[..]}
   carrier K :=  {"c":C} | {"ite":[K,K]}
-  {"op":"carrier","k":K}                       -> {"paths":[[ty..]..],"storable":[b..]}   (Carrier.columnPaths, constants in source order)
+  {"op":"carrier","k":K}                       -> {"paths":[[ty..]..],"accepted":b,"storable":[b..]}   (Carrier.columnPaths, constants in source order)
   {"op":"stored","c":C,"text":[..],"chain":[ty..]} -> {"holds":b,"why":s}      (StoredOk: literal of the constant, value kept through the types)
 Run: lake env lean --run FaxVerif/C18/Driver.lean
 -/
@@ -107,14 +107,14 @@ def whyNot (c : PyConst) (text : Str) (ty : CTy) : String :=
         | none => s!"under trigraph replacement (ISO C++ before C++17) the literal {t} is read as {String.ofList (detri text)}, which is not one string literal"
         | some vt => s!"under trigraph replacement (ISO C++ before C++17) the literal {t} is read as {String.ofList (detri text)} and denotes a different string: {String.ofList vt}"
   | .int n =>
-    match cppIntL text with
+    match cppIntE text with
     | none => s!"the emitted text {t} is not an integer literal any C++ type can hold"
     | some (v, lt) =>
       if v ≠ n then s!"the literal {t} has value {v}, the constant is {n}"
       else if !fitsTy ty n then s!"the value {n} is recorded with C++ type {ty.name}, which cannot hold it (the bare literal has type {lt.name})"
       else s!"literal type {lt.name} cannot hold {n}"
   | .float _ bits =>
-    match cppFloatL text with
+    match cppFloatE text with
     | none => s!"the emitted text {t} is not a C++ floating literal"
     | some (d, lt) =>
       if lt ≠ .double then s!"the literal {t} has type {lt.name}, not double"
@@ -254,6 +254,7 @@ def handle (line : String) : String :=
         let k ← parseCarrier (← j.getObjVal? "k")
         pure (Json.mkObj [
           ("paths", Json.arr (k.columnPaths.map fun p => Json.arr (p.2.map fun t => Json.str t.name).toArray).toArray),
+          ("accepted", Json.bool k.accepted),
           ("storable", Json.arr (k.consts.map fun c => Json.bool (decide (StorableConst c))).toArray)])
       else if op == "stored" then
         let c ← parseConst (← j.getObjVal? "c")
